@@ -413,10 +413,15 @@ def init_stage(rep, tier, seed, prefixes):
         recs = list(read_ndjson(outs))
         verdicts, judged, st, tr = validate_shards("ProblemInit", "ProblemInit.cfg", "INIT_RECS", recs, tmp)
     byid = {x["rid"]: x for x in items}
+    drift = {}
     for rid, clause in verdicts:
-        if clause.startswith(prefixes):
+        if clause.startswith("DRIFT:"):
+            drift[clause] = drift.get(clause, 0) + 1
+        elif clause.startswith(prefixes):
             rep.fail({"P": byid[rid]["P"], "clause": clause}, f"{clause} after Problem.init() of {json.dumps(byid[rid]['P'])[:300]}")
+    for clause, k in sorted(drift.items()):
+        print(f"DRIFT layer=init clause={clause[6:]} records={k} (mirror of the current Problem.init; no property is decided by it)")
     rep.add(states=st, transitions=tr, traces_validated_against_impl=judged)
-    rep.cov["problem_init_records"] = {"spec": "spec/ProblemInit.tla", "records": len(recs),
+    rep.cov["problem_init_records"] = {"spec": "spec/ProblemInit.tla", "records": len(recs), "drift": drift,
                                        "with_aliased_positions": sum(1 for x in recs if any(
                                            len({x["vidx"][v] for v in c["vars"]}) < len(c["vars"]) for c in x["posted"]))}
